@@ -56,6 +56,7 @@ CONSTANTS Workers,          \* e.g. {1, 2}
 VARIABLES nodes, handles,   \* CollFS contract (ghost)
           tree,             \* implementation tree, same shape as nodes
           par,              \* parent pointer per inode (root points to itself; never reset on unlink)
+          rem,              \* per inode: the `removed` flag of treenode (set by detach under the node's own lock)
           lk,               \* per inode: 0 or the worker holding its (write) lock
           mtx,              \* 0 or the worker holding the filesystem-wide mutex
           wk,               \* per worker: program counter and registers
@@ -64,13 +65,15 @@ VARIABLES nodes, handles,   \* CollFS contract (ghost)
           taint,            \* an operation acted on a directory that was no longer where its lookup
                             \* found it (moved or unlinked meanwhile): its commit step is not its
                             \* linearisation point, nothing is judged from here on
-          lost,             \* an entry was created in / moved into a directory that is in no tree (KF_detached)
+          lost,             \* an entry was created in / moved into a directory that is in no tree, or a
+                            \* non-empty directory was unlinked by Remove (must never happen)
+          hit,              \* the removed-flag made an operation fail (the race the flag exists for happened)
           hist
 
 C == INSTANCE CollFS
 cvars == <<nodes, handles>>
-vars == <<nodes, handles, tree, par, lk, mtx, wk, cnt, linbad, taint, lost, hist>>
-view == <<nodes, handles, tree, par, lk, mtx, wk, cnt, linbad, taint, lost>>
+vars == <<nodes, handles, tree, par, rem, lk, mtx, wk, cnt, linbad, taint, lost, hit, hist>>
+view == <<nodes, handles, tree, par, rem, lk, mtx, wk, cnt, linbad, taint, lost, hit>>
 
 Front(p) == SubSeq(p, 1, Len(p) - 1)
 Last(p) == p[Len(p)]
@@ -107,11 +110,11 @@ Init ==
     /\ handles = <<>>
     /\ tree = nodes
     /\ par = <<1, 1, 1>>
-    /\ lk = <<0, 0, 0>>
+    /\ lk = <<0, 0, 0>> /\ rem = <<FALSE, FALSE, FALSE>>
     /\ mtx = 0
     /\ wk = [w \in Workers |-> Idle]
     /\ cnt = [w \in Workers |-> 0]
-    /\ linbad = FALSE /\ taint = FALSE /\ lost = FALSE
+    /\ linbad = FALSE /\ taint = FALSE /\ lost = FALSE /\ hit = FALSE
     /\ hist = <<>>
 
 Rec(r) == hist' = IF Len(hist) < MaxHist THEN Append(hist, r) ELSE hist
@@ -147,7 +150,7 @@ Start(w, op) ==
        ELSE SetW(w, [pc |-> "look", op |-> op,
                      path |-> IF op.k = "stat" THEN op.p ELSE Front(op.p), i |-> 1, cur |-> 1,
                      phase |-> 1, od |-> 0, nd |-> 0, need |-> <<>>, held |-> <<>>, tgt |-> 0, empty |-> TRUE])
-    /\ UNCHANGED <<cvars, tree, par, lk, mtx, linbad, taint, lost>>
+    /\ UNCHANGED <<cvars, tree, par, lk, mtx, linbad, taint, lost, rem, hit>>
 
 \* the contract action of a FAILED operation (no effect on either tree)
 FailAct(op, w) ==
@@ -180,7 +183,7 @@ Look(w) ==
                ELSE \* no such entry / not a directory: the operation fails here
                     /\ Lin(FailAct(r.op, w), InPlace(SubSeq(r.path, 1, r.i - 1), node))
                     /\ SetW(w, Idle)
-    /\ UNCHANGED <<tree, par, lk, mtx, cnt, lost, hist>>
+    /\ UNCHANGED <<tree, par, lk, mtx, cnt, lost, rem, hit, hist>>
 
 StatDo(w) ==
     /\ wk[w].pc = "stat_do"
@@ -188,31 +191,37 @@ StatDo(w) ==
        /\ lk[node] = 0
        /\ Lin(C!Stat(r.op.p, TRUE, IsD(node), IF IsD(node) THEN 0 ELSE Len(tree[node].d)), InPlace(r.op.p, node))
     /\ SetW(w, Idle)
-    /\ UNCHANGED <<tree, par, lk, mtx, cnt, lost, hist>>
+    /\ UNCHANGED <<tree, par, lk, mtx, cnt, lost, rem, hit, hist>>
 
-(* Mkdir / OpenFile(O_CREATE): parent.Lock(), create unless the name exists, unlock - one critical section *)
+(* Mkdir / OpenFile(O_CREATE): parent.Lock(), create unless the name exists, unlock - one critical  *)
+(* section.  treenode.Child refuses to add an entry to a node whose `removed` flag is set.         *)
 Lock1(w) ==
     /\ wk[w].pc = "lock1" /\ wk[w].op.k \in {"mkdir", "create"}
     /\ LET r == wk[w]  n == r.cur  name == Last(r.op.p)
            new == Len(tree) + 1
            inpl == InPlace(Front(r.op.p), n)
-           creates == IsD(n) /\ name \notin Kids(n) IN
+           gone == IsD(n) /\ name \notin Kids(n) /\ rem[n]            \* refused: os.ErrNotExist
+           creates == IsD(n) /\ name \notin Kids(n) /\ ~rem[n] IN
        /\ lk[n] = 0
        /\ lost' = (lost \/ (creates /\ ~IsAttached(n)))
+       /\ hit' = (hit \/ gone)
        /\ IF ~IsD(n)
-          THEN /\ Lin(FailAct(r.op, w), inpl) /\ UNCHANGED <<tree, par, lk>>
+          THEN /\ Lin(FailAct(r.op, w), inpl) /\ UNCHANGED <<tree, par, lk, rem>>
+          ELSE IF gone
+          THEN \* judged at this step unless the path meanwhile names another directory
+               /\ Lin(FailAct(r.op, w), IWalk(1, Front(r.op.p)) = 0) /\ UNCHANGED <<tree, par, lk, rem>>
           ELSE IF r.op.k = "mkdir"
           THEN IF name \in Kids(n)
-               THEN /\ Lin(C!Mkdir(r.op.p, FALSE), inpl) /\ UNCHANGED <<tree, par, lk>>
+               THEN /\ Lin(C!Mkdir(r.op.p, FALSE), inpl) /\ UNCHANGED <<tree, par, lk, rem>>
                ELSE LET t2 == Append(C!Link(tree, n, name, new), [k |-> "d", e |-> <<>>]) IN
-                    /\ tree' = t2 /\ par' = Append(par, n) /\ lk' = Append(lk, 0)
+                    /\ tree' = t2 /\ par' = Append(par, n) /\ lk' = Append(lk, 0) /\ rem' = Append(rem, FALSE)
                     /\ Lin(C!Mkdir(r.op.p, TRUE) /\ nodes' = t2, inpl)
           ELSE LET fl == [acc |-> "rw", cr |-> TRUE, ex |-> FALSE, tr |-> FALSE, ap |-> FALSE] IN
                IF name \in Kids(n)
-               THEN /\ UNCHANGED <<tree, par, lk>>          \* opens the existing entry
+               THEN /\ UNCHANGED <<tree, par, lk, rem>>          \* opens the existing entry
                     /\ Lin(C!Open(w, r.op.p, fl, TRUE) /\ nodes' = tree, inpl)
                ELSE LET t2 == Append(C!Link(tree, n, name, new), [k |-> "f", d |-> ""]) IN
-                    /\ tree' = t2 /\ par' = Append(par, n) /\ lk' = Append(lk, 0)
+                    /\ tree' = t2 /\ par' = Append(par, n) /\ lk' = Append(lk, 0) /\ rem' = Append(rem, FALSE)
                     /\ Lin(C!Open(w, r.op.p, fl, TRUE) /\ nodes' = t2, inpl)
     /\ SetW(w, Idle)
     /\ UNCHANGED <<mtx, cnt, hist>>
@@ -223,24 +232,29 @@ RmLock(w) ==
     /\ lk[wk[w].cur] = 0
     /\ lk' = [lk EXCEPT ![wk[w].cur] = w]
     /\ SetW(w, [wk[w] EXCEPT !.pc = "rm_do"])
-    /\ UNCHANGED <<cvars, tree, par, mtx, cnt, linbad, taint, lost, hist>>
+    /\ UNCHANGED <<cvars, tree, par, mtx, cnt, linbad, taint, lost, rem, hit, hist>>
 
-(* ... then node.Size(): the child's lock is taken, the emptiness read, the lock RELEASED ... *)
-RmSize(w) ==
+(* ... then detach(): under the child's own lock the emptiness is tested AND the node marked       *)
+(* removed (one critical section), so nothing can be added to it in between or afterwards ...       *)
+RmDetach(w) ==
     /\ wk[w].pc = "rm_do"
     /\ LET r == wk[w]  dir == r.cur  name == Last(r.op.p) IN
-       IF ~IsD(dir) \/ name \notin Kids(dir)
-       THEN SetW(w, [r EXCEPT !.pc = "rm_fin", !.tgt = 0, !.empty = TRUE])
-       ELSE LET c == tree[dir].e[name] IN
+       IF ~IsD(dir) \/ name \notin Kids(dir) \/ rem[dir]
+       THEN /\ SetW(w, [r EXCEPT !.pc = "rm_fin", !.tgt = 0, !.empty = TRUE])
+            /\ UNCHANGED rem
+       ELSE LET c == tree[dir].e[name]
+                ok == ~IsD(c) \/ Kids(c) = {} IN
             /\ lk[c] = 0                                     \* blocks while somebody holds the child
-            /\ SetW(w, [r EXCEPT !.pc = "rm_fin", !.tgt = c, !.empty = (~IsD(c) \/ Kids(c) = {})])
-    /\ UNCHANGED <<cvars, tree, par, lk, mtx, cnt, linbad, taint, lost, hist>>
+            /\ rem' = IF ok /\ IsD(c) THEN [rem EXCEPT ![c] = TRUE] ELSE rem
+            /\ SetW(w, [r EXCEPT !.pc = "rm_fin", !.tgt = c, !.empty = ok])
+    /\ UNCHANGED <<cvars, tree, par, lk, mtx, cnt, linbad, taint, lost, hit, hist>>
 
-(* ... and only then the entry is deleted (the child may have gained an entry meanwhile), dir.Unlock() *)
+(* ... and the entry is deleted, dir.Unlock() *)
 RmDo(w) ==
     /\ wk[w].pc = "rm_fin"
     /\ LET r == wk[w]  dir == r.cur  name == Last(r.op.p)
-           inpl == InPlace(Front(r.op.p), dir) IN
+           inpl == InPlace(Front(r.op.p), dir) \/ (rem[dir] /\ IWalk(1, Front(r.op.p)) = 0) IN
+       /\ hit' = (hit \/ (r.tgt = 0 /\ rem[dir]))
        /\ IF r.tgt = 0
           THEN /\ Lin(C!Remove(r.op.p, FALSE), inpl) /\ UNCHANGED <<tree, lost>>
           ELSE IF ~r.empty
@@ -251,14 +265,14 @@ RmDo(w) ==
                /\ Lin(C!Remove(r.op.p, TRUE) /\ nodes' = t2, inpl)
        /\ lk' = [lk EXCEPT ![dir] = 0]
     /\ SetW(w, Idle)
-    /\ UNCHANGED <<par, mtx, cnt, hist>>
+    /\ UNCHANGED <<par, mtx, cnt, rem, hist>>
 
 (* Rename: filesystem-wide mutex *)
 RnMtx(w) ==
     /\ wk[w].pc = "rn_mtx" /\ mtx = 0
     /\ mtx' = w
     /\ SetW(w, [wk[w] EXCEPT !.pc = "rn_need"])
-    /\ UNCHANGED <<cvars, tree, par, lk, cnt, linbad, taint, lost, hist>>
+    /\ UNCHANGED <<cvars, tree, par, lk, cnt, linbad, taint, lost, rem, hit, hist>>
 
 RECURSIVE Chain(_, _)
 Chain(i, fuel) == IF i = 1 \/ fuel = 0 THEN <<1>> ELSE <<i>> \o Chain(par[i], fuel - 1)   \* i, parent, ..., root
@@ -278,7 +292,7 @@ RnNeed(w) ==
        /\ \A j \in 1 .. Len(c2) : lk[c2[j]] = 0
        \* locked from the end of [od chain, nd chain] backwards: root .. nd, then the rest of root .. od
        /\ SetW(w, [r EXCEPT !.pc = "rn_lock", !.need = Dedup(Rev(c2) \o Rev(c1), {})])
-    /\ UNCHANGED <<cvars, tree, par, lk, mtx, cnt, linbad, taint, lost, hist>>
+    /\ UNCHANGED <<cvars, tree, par, lk, mtx, cnt, linbad, taint, lost, rem, hit, hist>>
 
 RnLock(w) ==
     /\ wk[w].pc = "rn_lock" /\ wk[w].need # <<>>
@@ -286,7 +300,7 @@ RnLock(w) ==
        /\ lk[n] = 0
        /\ lk' = [lk EXCEPT ![n] = w]
        /\ SetW(w, [wk[w] EXCEPT !.need = Tail(@), !.held = Append(@, n)])
-    /\ UNCHANGED <<cvars, tree, par, mtx, cnt, linbad, taint, lost, hist>>
+    /\ UNCHANGED <<cvars, tree, par, mtx, cnt, linbad, taint, lost, rem, hit, hist>>
 
 RnDo(w) ==
     /\ wk[w].pc = "rn_lock" /\ wk[w].need = <<>>
@@ -294,11 +308,21 @@ RnDo(w) ==
            on == Last(r.op.p)  nn == Last(r.op.q)
            heldset == {r.held[j] : j \in 1 .. Len(r.held)}
            inpl == InPlace(Front(r.op.p), od) /\ InPlace(Front(r.op.q), nd)
-           moves == /\ IsD(od) /\ on \in Kids(od) /\ tree[od].e[on] \notin heldset /\ ~(od = nd /\ on = nn)
+           \* the removed flag is tested by olddir.Child first, then (after the not-found, own-subtree
+           \* and onto-itself tests) by newdir.Child
+           gone == \/ (IsD(od) /\ rem[od])
+                   \/ /\ IsD(od) /\ on \in Kids(od) /\ tree[od].e[on] \notin heldset /\ ~(od = nd /\ on = nn)
+                      /\ IsD(nd) /\ rem[nd]
+           goneJudged == IWalk(1, Front(r.op.p)) = 0 \/ IWalk(1, Front(r.op.q)) = 0
+           moves == /\ ~gone
+                    /\ IsD(od) /\ on \in Kids(od) /\ tree[od].e[on] \notin heldset /\ ~(od = nd /\ on = nn)
                     /\ IsD(nd) /\ ~(nn \in Kids(nd) /\ IsD(tree[nd].e[nn]))
            unlockAll == [j \in 1 .. Len(lk) |-> IF lk[j] = w THEN 0 ELSE lk[j]] IN
        /\ lost' = (lost \/ (moves /\ ~IsAttached(nd)))
-       /\ IF ~IsD(od) \/ on \notin Kids(od)
+       /\ hit' = (hit \/ gone)
+       /\ IF gone                                               \* olddir.Child / newdir.Child refuse: os.ErrNotExist
+          THEN /\ Lin(C!Rename(r.op.p, r.op.q, FALSE), goneJudged) /\ UNCHANGED <<tree, par>> /\ lk' = unlockAll
+          ELSE IF ~IsD(od) \/ on \notin Kids(od)
           THEN /\ Lin(C!Rename(r.op.p, r.op.q, FALSE), inpl) /\ UNCHANGED <<tree, par>> /\ lk' = unlockAll
           ELSE LET o == tree[od].e[on] IN
                IF o \in heldset                                  \* cannot become a descendant of itself
@@ -315,7 +339,7 @@ RnDo(w) ==
                     /\ lk' = unlockAll
     /\ mtx' = 0
     /\ SetW(w, Idle)
-    /\ UNCHANGED <<cnt, hist>>
+    /\ UNCHANGED <<cnt, rem, hist>>
 
 RECURSIVE SetSeq(_)
 SetSeq(S) == IF S = {} THEN <<>> ELSE LET x == CHOOSE y \in S : \A z \in S : y <= z IN <<x>> \o SetSeq(S \ {x})
@@ -328,36 +352,36 @@ MaLock(w) ==
        /\ lk[n] = 0
        /\ lk' = [lk EXCEPT ![n] = w]
        /\ SetW(w, [wk[w] EXCEPT !.queue = Tail(@) \o SetSeq(kids), !.held = Append(@, n)])
-    /\ UNCHANGED <<cvars, tree, par, mtx, cnt, linbad, taint, lost, hist>>
+    /\ UNCHANGED <<cvars, tree, par, mtx, cnt, linbad, taint, lost, rem, hit, hist>>
 
 MaDone(w) ==
     /\ wk[w].pc = "ma_lock" /\ wk[w].queue = <<>>
     /\ lk' = [j \in 1 .. Len(lk) |-> IF lk[j] = w THEN 0 ELSE lk[j]]
     /\ SetW(w, Idle)
-    /\ UNCHANGED <<cvars, tree, par, mtx, cnt, linbad, taint, lost, hist>>
+    /\ UNCHANGED <<cvars, tree, par, mtx, cnt, linbad, taint, lost, rem, hit, hist>>
 
 AllDone == \A w \in Workers : wk[w].pc = "idle" /\ cnt[w] = OpsPerWorker
 Done == AllDone /\ UNCHANGED vars
 
 Next ==
     \/ \E w \in Workers, op \in Menu : Start(w, op)
-    \/ \E w \in Workers : Look(w) \/ StatDo(w) \/ Lock1(w) \/ RmLock(w) \/ RmSize(w) \/ RmDo(w)
+    \/ \E w \in Workers : Look(w) \/ StatDo(w) \/ Lock1(w) \/ RmLock(w) \/ RmDetach(w) \/ RmDo(w)
                           \/ RnMtx(w) \/ RnNeed(w) \/ RnLock(w) \/ RnDo(w) \/ MaLock(w) \/ MaDone(w)
     \/ Done
 
 Spec == Init /\ [][Next]_vars
 
 -----------------------------------------------------------------------------
-KF_detached == lost      \* the known-finding class (header): checked separately, re-confirmed by RUN + JUDGE
-Linearizable == linbad => KF_detached
+Linearizable == ~linbad
 TreeAgree == linbad \/ taint \/ tree = nodes
-LocksOK == /\ \A i \in 1 .. Len(lk) : lk[i] \in {0} \cup Workers
+LocksOK == /\ Len(rem) = Len(tree)
+           /\ \A i \in 1 .. Len(lk) : lk[i] \in {0} \cup Workers
            /\ Len(lk) = Len(tree) /\ Len(par) = Len(tree)
            /\ (AllDone => (mtx = 0 /\ \A i \in 1 .. Len(lk) : lk[i] = 0))
-NoLost == ~lost          \* FAILS on the faithful model: KF_detached (see the header)
+NoLost == ~lost          \* failed before fix 9333098 (KF-C13-1): see the header
 
-(* Scenario emission: every behaviour in which the contract was contradicted *)
-Emit == (lost /\ AllDone) =>
+(* Scenario emission: the behaviours in which the removed flag decided (the race of KF-C13-1) *)
+Emit == (hit /\ AllDone) =>
           Serialize(<<[steps |-> hist]>>, IOEnv.VERIF_OUT,
                     [format |-> "NDJSON", charset |-> "UTF-8", openOptions |-> <<"WRITE", "CREATE", "APPEND">>])
 =============================================================================
